@@ -197,7 +197,7 @@ SUB = st.one_of(
 def _slice_mutate():
     return _fd(
         "slice_mutate", slot=slots, exprs=EXPRS3, multi=small, drop=st.integers(0, 2), bare=st.booleans(),
-        use_reg=st.sampled_from([False, False, True]), reg=st.integers(0, 1), subs=st.lists(SUB, min_size=1, max_size=4),
+        use_reg=st.booleans(), reg=st.integers(0, 1), subs=st.lists(SUB, min_size=1, max_size=4),
     )
 
 
@@ -588,6 +588,8 @@ class History:
                 me, se = ("s", (lo, lo + 2, None)), slice(lo, lo + 2)
             mes.append(me)
             ses.append(se)
+        if any(isinstance(x, np.integer) for x in ses) and (len(ses) < nd or any(e[0] != "i" for e in mes)):
+            self.classes.append("index:numpy-int-position+multi-or-omitted-axis")
         return mes, ses
 
     def op_set_many(self, step):
@@ -845,7 +847,7 @@ class History:
                     self.op_set_cell(sub)
                     self.classes.append("slice_mutate:parent-cell-replaced")
                 elif op == "copy_set":
-                    self._copy_set(sv, sm, sub)
+                    self._copy_set(sv, self.live[ts][1], sub)  # (a rejected list assignment may have swapped the model)
                 else:
                     sub["slot"] = ts
                     r = getattr(self, "op_" + op)(sub)
